@@ -1032,6 +1032,35 @@ func ruleOpenSkipped(rule string) func(*Ctx) {
 					}
 				}
 				if !accumulates {
+					// a search loop (nearest closed edge of the same set to the left): an open edge of the same set
+					// must not end the search
+					sx := &explorer{c: c, f: f, atomFn: func(x string) (absVal, bool) {
+						switch {
+						case strings.HasPrefix(x, "isOpen(") && x != "isOpen("+ae+")":
+							return boolVal(true), true
+						case strings.HasPrefix(x, "getPolyType("):
+							return intVal(0), true
+						case strings.HasPrefix(x, "isSamePolyType("):
+							return boolVal(true), true
+						case strings.HasSuffix(x, " != nil)"):
+							return boolVal(true), true
+						case strings.HasSuffix(x, " == nil)"):
+							return boolVal(false), true
+						}
+						return absVal{}, false
+					}, stop: inLoop}
+					souts := sx.explore(l.header)
+					sbad := ""
+					for _, p := range souts {
+						if p.end != "loop" {
+							sbad = fmt.Sprintf("the search for the nearest closed edge of the same set stops at an OPEN edge (path: %s)", p.condString())
+						}
+					}
+					if len(souts) > 0 {
+						c.check(sbad == "", rule, fmt.Sprintf("%s:%s:search#%d", rule, name[strings.Index(name, ").")+2:], li+1), l.header.Instrs[0].Pos(), name,
+							"an open edge of the same set met by the search is passed over", sbad,
+							"the new edge's winding count is derived from the edge the search stops at; an open line has no interior, so stopping there gives the closed polygon to its right the wrong count (it vanishes or doubles depending on the line's direction)")
+					}
 					continue
 				}
 				for _, p := range outs {
@@ -1136,6 +1165,33 @@ func ruleHorzJoinOwner(rule string) func(*Ctx) {
 				}
 				if swapped != cs.swap && bad == "" {
 					bad = fmt.Sprintf("%s: point lists swapped=%v, want %v", cs.name, swapped, cs.swap)
+				}
+				// after a swap every node of BOTH rings must point at the record that now owns it
+				if swapped && bad == "" {
+					swapAt := -1
+					for si, s := range p.stores {
+						if s.addr == newRec+".pts" && strings.Contains(s.val.expr, "getRealOutRec") && strings.HasSuffix(s.val.expr, ".pts") {
+							swapAt = si + 1
+						}
+					}
+					relabelled := map[string]bool{}
+					after := false
+					for _, q := range p.seq {
+						if q == -swapAt {
+							after = true
+						}
+						if after && q > 0 && p.calls[q-1].callee == "fixOutRecPts" && len(p.calls[q-1].args) == 1 {
+							a := p.calls[q-1].args[0].expr
+							if a == newRec {
+								relabelled["new"] = true
+							} else if strings.HasPrefix(a, "getRealOutRec(") {
+								relabelled["old"] = true
+							}
+						}
+					}
+					if !relabelled["new"] || !relabelled["old"] {
+						bad = fmt.Sprintf("%s: the point lists are exchanged but fixOutRecPts is not called for both records afterwards (old=%v new=%v): nodes keep pointing at the record that no longer owns them", cs.name, relabelled["old"], relabelled["new"])
+					}
 				}
 				// the split is recorded on the old ring in every case (checkSplitOwner later searches owners through it)
 				recorded := false
